@@ -62,7 +62,8 @@ _new_rxn = st.fixed_dictionaries({
 })
 
 OPS: Dict[str, Any] = {
-    "add_reactions": _d("add_reactions", rxns=st.lists(_new_rxn, min_size=1, max_size=3, unique_by=lambda d: d["id"])),
+    "add_reactions": _d("add_reactions", rxns=st.lists(_new_rxn, min_size=1, max_size=3, unique_by=lambda d: d["id"]),
+                        own=st.sampled_from([False, False, True])),
     "remove_reactions": _d("remove_reactions", sels=st.lists(_k, min_size=1, max_size=3), by=st.sampled_from(["obj", "id", "mixed"]),
                            orphans=st.booleans(), single=st.booleans(), via=st.sampled_from(["model", "model", "rxn"])),
     "readd": _d("readd", k=_k),
@@ -304,7 +305,11 @@ class World:
             self.in_block -= 1
 
     def op_add_reactions(self, op):
-        self.model.add_reactions([self._make_rxn(d) for d in op["rxns"]])
+        # identifiers the model already has are "ignored"; they come as other objects with that id or (own) as the model's
+        # own reaction objects
+        m = self.model
+        m.add_reactions([(m.reactions.get_by_id(RID[d["id"]]) if op.get("own") and RID[d["id"]] in m.reactions else self._make_rxn(d))
+                         for d in op["rxns"]])
 
     def op_remove_reactions(self, op):
         m = self.model
